@@ -96,6 +96,10 @@ def cases(tier, seed):
                 for mk in ("none", "bool_sym"):
                     out.append({"kind": "observer", "rep": rep, "lengths": lengths, "N": N, "G": G, "op": op, "mask": mk,
                                 "name": f"{op} on {rep} == on contiguous codes/chunks={ln},G={G}/mask={mk}"})
+            for op in ("sum", "count_ikey", "transform_sum"):
+                for sl in ((1, None), (None, -1), (lengths[0], None), (-1, None), (2, 3)):
+                    out.append({"kind": "observer", "rep": rep, "lengths": lengths, "N": N, "G": G, "op": op, "mask": "slice", "slice": list(sl),
+                                "name": f"{op} on {rep} == on contiguous codes/chunks={ln},G={G}/mask=slice({sl[0]},{sl[1]})"})
     lays2 = lays if tier == "thorough" else lays[:2]
     for lengths in lays2:
         ln = "+".join(map(str, lengths))
@@ -232,8 +236,13 @@ def run_case(E, case):
         elif case["kind"] == "observer":
             on = case["mask"] == "bool_sym"
             f = OPS[case["op"]]
-            p1 = run_paths(lambda: f(state_of(E, case, d), V("v1"), M("m1", on)))
-            p2 = run_paths(lambda: f(state_of(E, case, d, "contiguous"), V("v1"), M("m1", on)))
+
+            def MK():
+                if case["mask"] == "slice":
+                    return slice(case["slice"][0], case["slice"][1])
+                return M("m1", on)
+            p1 = run_paths(lambda: f(state_of(E, case, d), V("v1"), MK()))
+            p2 = run_paths(lambda: f(state_of(E, case, d, "contiguous"), V("v1"), MK()))
             collect(p1)
             collect(p2)
             pair(p1, p2, case["op"])
@@ -566,8 +575,9 @@ def replay(case, conc, cand=None):
         if case["kind"] == "observer":
             on = case["mask"] == "bool_sym"
             f = OPS[case["op"]]
-            a = _real_cells(f(_real_state(case, conc)[0], v1, m1 if on else None))
-            b = _real_cells(f(_real_state(case, conc, "contiguous")[0], v1, m1 if on else None))
+            mk = slice(case["slice"][0], case["slice"][1]) if case["mask"] == "slice" else (m1 if on else None)
+            a = _real_cells(f(_real_state(case, conc)[0], v1, mk))
+            b = _real_cells(f(_real_state(case, conc, "contiguous")[0], v1, mk))
         elif case["kind"] == "sequence":
             fa, fb = OPS[case["first"]], OPS[case["second"]]
             gb = _real_state(case, conc)[0]
